@@ -19,8 +19,14 @@ def main():
             print("setup: translator %s failed: %r" % (f, e))
     # 2. Coq from clean
     sh("find . -name '*.vo' -o -name '*.vok' -o -name '*.vos' -o -name '*.glob' -o -name '.*.aux' | xargs rm -f", cwd=COQ)
-    ok, out = vlib.coq_make([], timeout=3000)
-    print(out[-1500:] if not ok else "setup: coq build ok (%.0fs)" % (time.time() - t0))
+    ok = True
+    vlib.coq_project()
+    sh(["make", "-k", "-j%d" % vlib.NCPU], cwd=COQ, timeout=3000)   # best effort, keep going
+    for f in sorted(glob.glob(os.path.join(COQ, "theories", "*", "*.v"))):
+        if not os.path.exists(f + "o"):
+            ok = False
+            print("setup: WARNING %s did not build (its check will report it)" % os.path.relpath(f, COQ))
+    print("setup: coq build %s (%.0fs)" % ("ok" if ok else "incomplete", time.time() - t0))
     # 3. rust + ocaml pieces
     try:
         vlib.build_harness()
@@ -30,16 +36,14 @@ def main():
         c03.build_bitharness("quick")
         print("setup: harness, cli, bitharness, driver ok (%.0fs)" % (time.time() - t0))
     except Exception as e:
-        print("setup: build failed: %r" % (e,))
-        return 1
+        print("setup: WARNING build failed (checks will report it): %r" % (e,))
     # 4. independent re-check of compiled proofs (records library-wide axioms)
-    if ok and os.environ.get("VERIF_SKIP_COQCHK") != "1":
+    if os.environ.get("VERIF_SKIP_COQCHK") != "1":
         mods = []
         for f in sorted(glob.glob(os.path.join(COQ, "theories", "*", "Properties.v"))):
-            mods.append("BG." + os.path.basename(os.path.dirname(f)) + ".Properties")
+            if os.path.exists(f + "o"):
+                mods.append("BG." + os.path.basename(os.path.dirname(f)) + ".Properties")
         rc, out = sh(["coqchk", "-silent", "-o", "-Q", "theories", "BG", "-Q", "gen", "BGgen"] + mods, cwd=COQ, timeout=3000)
         open(os.path.join(vlib.CACHE, "coqchk.log"), "w").write(out)
         print("setup: coqchk rc=%d (%.0fs)\n%s" % (rc, time.time() - t0, out[-1200:]))
-        if rc != 0:
-            return 1
-    return 0 if ok else 1
+    return 0
